@@ -142,6 +142,51 @@ func c11Run(c *core.Ctx) {
 			c.SetMax("token_length_completed", int64(L))
 		}
 	}
+	// literals at the edge of the numeric range and long lexemes: all sequences <= 3 (4 thorough) over a
+	// second alphabet (the main alphabet has one lexeme per literal kind)
+	N := []string{"9223372036854775808", "1e999", "0xffffffffffffffffff", "5e-324", "a", "+", "(", ")", "[", "]", ",", "=", "let", ".", "1", "'\\u{0000041}'", "return", "{", "}", ":"}
+	nl := 3
+	if c.Thorough() {
+		nl = 4
+	}
+	for L := 1; L <= nl; L++ {
+		gen.EachSeq(len(N), L, func(idx []int) bool {
+			if !c.Next() {
+				return true
+			}
+			if c.Tick() {
+				return false
+			}
+			src := gen.Join(N, idx, " ")
+			c.Cur(src)
+			c.Inc("inputs")
+			c.Inc("numeric_edge_inputs")
+			free := false
+			for mi := range Modes {
+				c.Inc("parses")
+				k, d, f := c11Check(src, mi, cfgs)
+				free = free || f
+				if k != "" && c.ShrinkOK(k) {
+					fails := func(x []int) bool { kk, _, _ := c11Check(gen.Join(N, x, " "), mi, cfgs); return kk == k }
+					sh := core.ShrinkSeq(append([]int{}, idx...), nil, fails)
+					s2 := gen.Join(N, sh, " ")
+					if kk, dd, _ := c11Check(s2, mi, cfgs); kk == k {
+						d = dd
+					} else {
+						s2 = src
+					}
+					pl, _ := json.Marshal(c11Payload{s2, mi})
+					c.Violate(core.Violation{Kind: k, Config: Modes[mi].String(), Case: fmt.Sprintf("%q", s2), Detail: d, Payload: pl, Size: len(sh)})
+				}
+			}
+			if free {
+				c.Inc("error_free_inputs")
+			} else {
+				c.Inc("rejected_inputs")
+			}
+			return true
+		})
+	}
 	// byte strings <= 4
 	A := lexAlphabet
 	for L := 1; L <= 4; L++ {
